@@ -40,8 +40,11 @@ func fsErrLike(e ast.Expr) bool {
 	return false
 }
 
-// lastReturnsError: the block's last statement is a return whose LAST result is error-like.
-func lastReturnsError(b *ast.BlockStmt) bool {
+// lastReturnsError: the block's last statement is a return whose LAST result carries the failure:
+// it mentions the guard variable `v` (returned as is or wrapped), or it is a freshly constructed
+// error (a call such as fmt.Errorf / errors.New, or a composite literal). Returning some OTHER
+// variable (e.g. an outer `err` that is nil at this point) does not count.
+func lastReturnsError(b *ast.BlockStmt, v string) bool {
 	if b == nil || len(b.List) == 0 {
 		return false
 	}
@@ -49,17 +52,24 @@ func lastReturnsError(b *ast.BlockStmt) bool {
 	if !ok || len(r.Results) == 0 {
 		return false
 	}
-	return fsErrLike(r.Results[len(r.Results)-1])
+	last := r.Results[len(r.Results)-1]
+	switch x := last.(type) {
+	case *ast.Ident:
+		return x.Name == v
+	case *ast.CallExpr, *ast.UnaryExpr, *ast.CompositeLit:
+		return true
+	}
+	return false
 }
 
-// condIsErrNotNil matches `<ident> != nil` where the identifier's name starts with "err".
+// condIsErrNotNil matches `<ident> != nil` where the identifier's name contains "err" (err, syncErr, err2 …).
 func condIsErrNotNil(c ast.Expr) (string, bool) {
 	b, ok := c.(*ast.BinaryExpr)
 	if !ok || b.Op != token.NEQ || !fsIsNil(b.Y) {
 		return "", false
 	}
 	id, ok := b.X.(*ast.Ident)
-	if !ok || !strings.HasPrefix(strings.ToLower(id.Name), "err") {
+	if !ok || !strings.Contains(strings.ToLower(id.Name), "err") {
 		return "", false
 	}
 	return id.Name, true
@@ -158,16 +168,16 @@ func faultSites(repo, outDir string) error {
 						}
 						// (1) poll: `if err := ctx.Err(); err != nil { return …err }`
 						if as, ok := ifs.Init.(*ast.AssignStmt); ok && len(as.Rhs) == 1 && isCtxErrCall(as.Rhs[0]) {
-							_, condOk := condIsErrNotNil(ifs.Cond)
+							v, condOk := condIsErrNotNil(ifs.Cond)
 							pollSeen[as.Rhs[0].Pos()] = true
-							polls = append(polls, pollRow{rel, fn, fset.Position(ifs.Pos()).Line, condOk && lastReturnsError(ifs.Body)})
+							polls = append(polls, pollRow{rel, fn, fset.Position(ifs.Pos()).Line, condOk && lastReturnsError(ifs.Body, v)})
 						}
 						// (3) engine call in the init of an if: `if ok, err := eng.X(…); err != nil {…} else if !ok {…}`
 						if as, ok := ifs.Init.(*ast.AssignStmt); ok && len(as.Rhs) == 1 {
 							if c, ok := as.Rhs[0].(*ast.CallExpr); ok && engineCallRe.MatchString(fsCalleeName(c)) {
 								row := engineRow{file: rel, fn: fn, callee: fsCalleeName(c), line: fset.Position(ifs.Pos()).Line, shape: "other"}
-								_, condOk := condIsErrNotNil(ifs.Cond)
-								errBranch := condOk && lastReturnsError(ifs.Body)
+								v, condOk := condIsErrNotNil(ifs.Cond)
+								errBranch := condOk && lastReturnsError(ifs.Body, v)
 								var elseIf *ast.IfStmt
 								if ifs.Else != nil {
 									elseIf, _ = ifs.Else.(*ast.IfStmt)
@@ -210,8 +220,8 @@ func faultSites(repo, outDir string) error {
 					case *ast.IfStmt:
 						// (2) guards: any `if … err != nil {…}` in a function that takes a context
 						if hasCtx {
-							if _, ok := condIsErrNotNil(x.Cond); ok {
-								guards = append(guards, guardRow{rel, fn, fset.Position(x.Pos()).Line, lastReturnsError(x.Body)})
+							if v, ok := condIsErrNotNil(x.Cond); ok {
+								guards = append(guards, guardRow{rel, fn, fset.Position(x.Pos()).Line, lastReturnsError(x.Body, v)})
 							}
 						}
 					case *ast.ReturnStmt:
